@@ -51,8 +51,11 @@ Cause(prog, ref, run, m) ==
   ELSE IF VmExplains(m, run) /\ m.why # "" THEN m.why
   ELSE IF run.variant = "callback" /\ run.outcome = "hostpanic" THEN "callback-panic-escapes"
   ELSE Symptom(ref, run)
+\* (a position-only failure is "explained" by the transcribed newPanic exactly when no position at all is reported; the VM
+\* machine is not run for it)
 SigOf(prog, ref, run, m) == [fam |-> "panicflow", variant |-> run.variant, cause |-> Cause(prog, ref, run, m),
-                             ref |-> ref.outcome, got |-> run.outcome, explained |-> VmExplains(m, run)]
+                             ref |-> ref.outcome, got |-> run.outcome,
+                             explained |-> IF FlowOK(ref, run) THEN Cause(prog, ref, run, m) = "position-empty" ELSE VmExplains(m, run)]
 
 \* failing runs of one record: << [run |-> index, sig |-> ...] >> ; reference undefined (fuel) => nothing is judged
 RefDefined(ref) == ref.outcome # "no"
